@@ -97,6 +97,8 @@ def gen_case(seed, shard, i):
                                  allow_rank0=(i % 5 == 0))
         if i % 16 == 7:
             return M.gen_flatten3_discordant(rnd), rnd
+        if i % 16 == 11:
+            return M.gen_flatten_lookup(rnd), rnd
         if i % 16 == 15:
             base, info = G.gen_plain(rnd, products_only=True, allow_take=False, max_ranks=4)
             s = M.add_double_flatten(rnd, base, info)
